@@ -543,6 +543,10 @@ inline int e1_main(int argc, char** argv, bool inproc = false) {
       mode = "gen";
     else if (a == "--enum")
       mode = "enum";
+    else if (a == "--seeds" && i + 1 < argc) {
+      mode = "seeds";
+      out  = argv[++i];
+    }
     else if (a == "--replay" && i + 1 < argc) {
       mode   = "replay";
       replay = argv[++i];
@@ -593,6 +597,26 @@ inline int e1_main(int argc, char** argv, bool inproc = false) {
     printf("REPLAY harness=%s runs=%d fails=%d inconclusive=%d key=%s msg=%s\n",
            HARNESS, times, fails, inconc, lastkey.c_str(), lastmsg.c_str());
     return fails ? 1 : 0;
+  }
+  if (mode == "seeds") {
+    // starting corpus for the libFuzzer build of this harness: generated cases
+    // in the byte encoding fuzz_one() decodes (2 bytes per field, 1 per tail value)
+    int k = 0;
+    rc::check(std::string("seeds ") + HARNESS, [&] {
+      Case c = *rc::gen::exec([] { return generate(); });
+      std::string b;
+      for (size_t i = 0; i < c.f.size(); ++i) {
+        b.push_back((char)(c.f[i] & 0xff));
+        if (i < FIELDS.size())
+          b.push_back((char)((c.f[i] >> 8) & 0xff));
+      }
+      char name[64];
+      snprintf(name, sizeof name, "/seed-%05d", k++);
+      std::ofstream f(out + name, std::ios::binary);
+      f.write(b.data(), (std::streamsize)b.size());
+    });
+    printf("SEEDS harness=%s written=%d\n", HARNESS, k);
+    return 0;
   }
   if (mode == "enum") {
     std::vector<Case> cases;
